@@ -5,6 +5,8 @@ CONSTANTS
   MaxM = 3
   MaxTotal = 5
   ZeroPairs = "split"
+  TB = 0
+  FB = 0
   WithTwins = FALSE
   ExportAt = "matrix"
 CONSTRAINT Export
